@@ -156,7 +156,7 @@ def run(chk):
     # selective retransmission of message remainders, time-outs): the numbers of all sealed records, per side and epoch
     import hsreplay13f
     for variant in ("", "m400"):
-        s13f = hsreplay13f.generate(chk, limit=1500 if chk.quick else 12000, variant=variant)
+        s13f = hsreplay13f.generate(chk, limit=1500 if chk.quick else 4000, variant=variant)   # (thorough: race-detector build)
         frows, fsumm = hsreplay13f.replay(chk, binary, s13f, variant=variant)
         nnum = 0
         for r in frows:
